@@ -45,6 +45,7 @@ const (
 	kFOpa = "FOpa"  // wire.FieldsOf(new(*C), "A"), *C is an injector argument
 	kFOpf = "FOpf"  // wire.FieldsOf(new(*C), "A"), *C returned by a provider func
 	kFO2  = "FO2pa" // wire.FieldsOf(new(*C), "A", "B"): two fields, both consumed; *C is an injector argument
+	kFV   = "FV"    // func P(deps) T<j>: the VALUE form of the struct whose pointer form node j (Twin) provides
 	kFOM  = "FOMpa" // wire.FieldsOf(new(*C), "A"), wire.FieldsOf(new(*C), "B"): two elements over one struct
 )
 
@@ -61,6 +62,7 @@ var (
 type wNode struct {
 	Kind string `json:"kind"`
 	Deps []int  `json:"deps,omitempty"`
+	Twin int    `json:"twin,omitempty"` // kind FV only: the F/FE node whose struct type this node returns by value
 	Arg  bool   `json:"arg,omitempty"`  // additionally consumes the injector argument *A<k>
 	Bind string `json:"bind,omitempty"` // "", "new" (ctor New<T>), "other" (ctor Make<T>, no New<T>), "decoy" (ctor Make<T>, an unrelated New<T> exists)
 }
@@ -77,8 +79,10 @@ type wCfg struct {
 
 func isStructKind(k string) bool { return strings.HasPrefix(k, "S") }
 func isFOKind(k string) bool     { return strings.HasPrefix(k, "FO") }
-func isFuncKind(k string) bool   { return k == kF || k == kFE || k == kFOvf || k == kFOpf }
-func bindable(k string) bool     { return k == kF || k == kFE || k == kSAp }
+func isFuncKind(k string) bool {
+	return k == kF || k == kFE || k == kFOvf || k == kFOpf || k == kFV
+}
+func bindable(k string) bool { return k == kF || k == kFE || k == kSAp }
 
 // hasSecond: the node supplies a second type *U<k> (field B) next to *T<k>; consumers take both.
 func hasSecond(k string) bool { return k == kFO2 || k == kFOM }
@@ -107,7 +111,7 @@ func (c *wCfg) funcName(k int) string {
 			return fmt.Sprintf("MakeT%d", k)
 		}
 		return fmt.Sprintf("P%d", k)
-	case n.Kind == kFOvf || n.Kind == kFOpf:
+	case n.Kind == kFOvf || n.Kind == kFOpf || n.Kind == kFV:
 		return fmt.Sprintf("P%d", k)
 	}
 	return ""
@@ -120,6 +124,8 @@ func (c *wCfg) provType(k int) string {
 		return fmt.Sprintf("*T%d", k)
 	case kV:
 		return fmt.Sprintf("T%d", k)
+	case kFV:
+		return fmt.Sprintf("T%d", c.Nodes[k].Twin)
 	case kIV:
 		return fmt.Sprintf("I%d", k)
 	case kSAp, kSFp:
@@ -196,6 +202,9 @@ func (c *wCfg) Spec() string {
 			sb.WriteByte(' ')
 		}
 		fmt.Fprintf(&sb, "N%d:%s", k, n.Kind)
+		if n.Kind == kFV {
+			fmt.Fprintf(&sb, "~N%d", n.Twin)
+		}
 		if n.Bind != "" {
 			sb.WriteString("+bind-" + n.Bind)
 		}
@@ -301,6 +310,7 @@ func (c *wCfg) siteOf(k int) string {
 		kSFp: `Struct(new(T),fields)-consumed-as-pointer`, kSFv: `Struct(new(T),fields)-consumed-as-value`,
 		kFOva: "FieldsOf(new(T))-over-value-struct-from-injector-arg", kFOvf: "FieldsOf(new(T))-over-value-struct-from-provider",
 		kFOpa: "FieldsOf(new(*T))-over-pointer-struct-from-injector-arg", kFOpf: "FieldsOf(new(*T))-over-pointer-struct-from-provider",
+		kFV:  "provider-func-returning-the-value-form-of-a-struct-whose-pointer-form-another-provider-returns",
 		kFO2: "FieldsOf(new(*T),two-fields)", kFOM: "two-FieldsOf-elements-over-one-struct",
 	}[n.Kind]
 	switch n.Bind {
@@ -321,6 +331,14 @@ var reTypeIdx = regexp.MustCompile(`^\*?[TUSCIA](\d+)$`)
 
 // ownerOfType maps a type spelled in a signature to the node it belongs to (-1: none).
 func (c *wCfg) ownerOfType(t string) int {
+	if !strings.HasPrefix(t, "*") {
+		// the value form T<j> belongs to the node that returns it by value, if there is one
+		for k, n := range c.Nodes {
+			if n.Kind == kFV && t == fmt.Sprintf("T%d", n.Twin) {
+				return k
+			}
+		}
+	}
 	if m := reTypeIdx.FindStringSubmatch(t); m != nil {
 		k := 0
 		fmt.Sscan(m[1], &k)
@@ -593,11 +611,42 @@ func wireUniverse(tier string) ([]*wCfg, string) {
 			}
 		}
 	}
+	// D: the pointer form and the value form of ONE struct type provided by two different providers
+	// (wire treats T and *T as distinct types), with and without a wire.Bind on the pointer form
+	ptrKinds, tgtKinds := []string{kF, kFE}, []string{kF, kSAp}
+	twinSets := setModes
+	if thorough {
+		tgtKinds = depKindsRed
+		twinSets = append(append([]string{}, setModes...), "nested")
+	}
+	var twins []*wCfg
+	for _, pk := range ptrKinds {
+		for _, vdeps := range [][]int{nil, {0}} {
+			if vdeps != nil {
+				// the value provider is what the injector returns
+				twins = append(twins, &wCfg{Sets: "flat", Nodes: []wNode{{Kind: pk}, {Kind: kFV, Twin: 0, Deps: vdeps}}})
+			}
+			for _, tk := range tgtKinds {
+				twins = append(twins, &wCfg{Sets: "flat", Nodes: []wNode{{Kind: pk}, {Kind: kFV, Twin: 0, Deps: vdeps}, {Kind: tk, Deps: []int{0, 1}}}})
+			}
+		}
+	}
+	for _, b := range twins {
+		b.Err = len(b.fallible()) > 0
+		for _, s := range twinSets {
+			sb := withSets(b, s)
+			add(sb, "D")
+			for _, variant := range []string{"new", "other", "decoy"} {
+				add(withBind(sb, 0, variant, ""), "D")
+				add(withBind(sb, 0, variant, "build"), "D")
+			}
+		}
+	}
 	rule := "wire configurations = provider DAG on n nodes (every non-final node consumed, last node returned by the injector) x construct per node {func, func+error, Value(T{}), Value(&T{}), InterfaceValue, Struct(\"*\") as pointer / as value, Struct(fields) as pointer / as value, FieldsOf(new(T)) / FieldsOf(new(*T)) with the struct coming from an injector argument / from a provider, FieldsOf with two fields, two FieldsOf elements over one struct} x wire.Bind on a func/Struct node {ctor named New<T>, named otherwise, named otherwise with an unrelated New<T> in the package} placed {next to the provider, in wire.Build while the provider sits in the set} x set structure {flat, inline NewSet, set variable, set variable in a second file, nested set variables} x injector arguments {none, used, used + one unused} x error result {iff a provider can fail, declared although none can}. "
 	if thorough {
-		rule += "Block A: n<=2 with all 15 leaf / 8 inner constructs, all axes fully crossed. Block B: n=3 (all 3 shapes) with all constructs, flat; n=3 over the reduced alphabet {F,FE,V,IV,FOva,FOpf}/{F,FE,SAp,SFv} x {inline,var,file,nested | partly-used args | declared-only error}; B4: n=4 (all shapes) over {F,V,FOpa}/{F,FE,SAp}, flat. Block C: every bindable node of n<=2 reduced configurations x 3 constructor namings x 4 set structures x 2 Bind placements, and of n=3 minimal-alphabet configurations x 3 namings x {flat, set variable} x 2 placements."
+		rule += "Block A: n<=2 with all 15 leaf / 8 inner constructs, all axes fully crossed. Block B: n=3 (all 3 shapes) with all constructs, flat; n=3 over the reduced alphabet {F,FE,V,IV,FOva,FOpf}/{F,FE,SAp,SFv} x {inline,var,file,nested | partly-used args | declared-only error}; B4: n=4 (all shapes) over {F,V,FOpa}/{F,FE,SAp}, flat. Block C: every bindable node of n<=2 reduced configurations x 3 constructor namings x 4 set structures x 2 Bind placements, and of n=3 minimal-alphabet configurations x 3 namings x {flat, set variable} x 2 placements. Block D: pointer form (func / func+error) and value form (func FV returning T, independent of / depending on the pointer) of ONE struct type provided side by side, consumed by {the injector result, F, FE, SAp, SFv} x Bind on the pointer form {none, New<T>, named otherwise, named otherwise + unrelated New<T>} x 2 Bind placements x 5 set structures."
 	} else {
-		rule += "Block A: n<=2 with all 15 leaf / 8 inner constructs; axes crossed one at a time against the flat/no-argument/minimal-error base (4 set structures + 2 argument modes + declared-only error). Block B: n=3 (all 3 shapes) over the reduced alphabet {F,FE,V,IV,FOva,FOpf}/{F,FE,SAp,SFv}, flat; n=3 over {F,V,FOpa}/{F,FE,SAp} with nested set variables. Block C: every bindable node of n<=2 reduced configurations x 3 constructor namings x {flat, set variable} x 2 Bind placements."
+		rule += "Block A: n<=2 with all 15 leaf / 8 inner constructs; axes crossed one at a time against the flat/no-argument/minimal-error base (4 set structures + 2 argument modes + declared-only error). Block B: n=3 (all 3 shapes) over the reduced alphabet {F,FE,V,IV,FOva,FOpf}/{F,FE,SAp,SFv}, flat; n=3 over {F,V,FOpa}/{F,FE,SAp} with nested set variables. Block C: every bindable node of n<=2 reduced configurations x 3 constructor namings x {flat, set variable} x 2 Bind placements. Block D: pointer form (func / func+error) and value form (func FV returning T, independent of / depending on the pointer) of ONE struct type provided side by side, consumed by {the injector result, F, SAp} x Bind on the pointer form {none, New<T>, named otherwise, named otherwise + unrelated New<T>} x 2 Bind placements x 4 set structures."
 	}
 	return out, rule
 }
@@ -820,6 +869,8 @@ func (c *wCfg) ProvidersSrc(pkg string) string {
 				needTX = true
 			}
 			fmt.Fprintf(&sb, "}\n\nfunc (s *S%d) Term() string {\n\tif s == nil {\n\t\treturn \"nil\"\n\t}\n\treturn \"S%d{\" + %s + \"}\"\n}\n\n", k, k, strings.Join(terms, ` + "," + `))
+		case n.Kind == kFV:
+			// no type of its own: it returns T<Twin> by value
 		default:
 			tdef(impl)
 		}
@@ -845,6 +896,8 @@ func (c *wCfg) ProvidersSrc(pkg string) string {
 			fmt.Fprintf(&sb, "func %s(%s) *T%d { return &T%d{R: %s} }\n\n", name, decl, k, k, call)
 		case kFE:
 			fmt.Fprintf(&sb, "func %s(%s) (*T%d, error) {\n\tif err := sym.FailIf(%q); err != nil {\n\t\treturn nil, err\n\t}\n\treturn &T%d{R: %s}, nil\n}\n\n", name, decl, k, name, k, call)
+		case kFV:
+			fmt.Fprintf(&sb, "func %s(%s) T%d { return T%d{R: %s} }\n\n", name, decl, n.Twin, n.Twin, call)
 		case kFOvf:
 			fmt.Fprintf(&sb, "func %s(%s) C%d { return C%d{A: &T%d{R: %s + \".A\"}, B: \"b\"} }\n\n", name, decl, k, k, k, call)
 		case kFOpf:
@@ -872,7 +925,7 @@ func (c *wCfg) ProvidersSrc(pkg string) string {
 func (c *wCfg) elems(k int) (prov []string, bind string) {
 	n := c.Nodes[k]
 	switch n.Kind {
-	case kF, kFE:
+	case kF, kFE, kFV:
 		prov = []string{c.funcName(k)}
 	case kV:
 		prov = []string{fmt.Sprintf("wire.Value(T%d{R: \"val:T%d\"})", k, k)}
